@@ -354,7 +354,11 @@ Definition bp_core (c : cfg) (ep : Z) (st : bp) (i : bp_in) : bp * list effect *
                        | None => if is_fin m then with_cur st (cur_remove (msg_key m) (b_cur st)) else st
                        | Some _ => st
                        end), [retry_msg c m e], false)
-                 | None => recv_data c st m
+                 | None =>
+                     (* fixes/c04_fin_not_buffered.patch: a chaser that finds this worker not refusing its partition
+                        is bounced like the messages it chases, never buffered *)
+                     if is_fin m then (st, [retry_msg c m E_SHUTTING_DOWN], false)
+                     else recv_data c st m
                  end
         | _, _ => (st, [ECrash 99], false)     (* not reading its input: the composition never offers this *)
         end
